@@ -409,6 +409,15 @@ where
             .into()),
         }
     }
+
+    // speedy sizes `Vec<SyncNeedV1>` allocations by `length * minimum_bytes_needed()`
+    // against the bytes that are left; with the default of 0 a length prefix
+    // sent by a peer was trusted as is
+    #[inline]
+    fn minimum_bytes_needed() -> usize {
+        // variant tag + the smallest variant (`Empty { ts: None }`)
+        2
+    }
 }
 
 impl<C> Writable<C> for SyncNeedV1
